@@ -218,3 +218,17 @@ def c20(run):
                         "which error is returned when the context ended and the handshake failed for an unrelated reason is left open"]
     traces_check(run, b, "c20", "TraceDial", nd=True)
     return run.finish("model_checking")
+
+
+@prop("C14")
+def c14(run):
+    b = run.build()
+    vlib.tlc_model(run, "MCPmce", workers=8)
+    vlib.tlc_model(run, "MCPmce", cfg="MCPmce_lists", workers=8)
+    r = vlib.tlc_model(run, "MCPmce", cfg="MCPmce_prerepair", workers=8, expect_ok=False)
+    if r["ok"] or "Invariant Legal is violated" not in r["out"]:
+        raise Infra("anti-vacuity: the pre-repair negotiation model should violate Legal")
+    run.assumptions += ["Pmce!LegalAnswer transcribes RFC 7692 7.1 as quoted in the property; declining an offer is always legal",
+                        "parameter values are mapped to naturals by the harness ('' -> 0, canonical decimals -> n, anything else -> 77 = ill-valued)"]
+    records_check(run, b, "c14", "C14Records")
+    return run.finish("model_checking")
